@@ -34,7 +34,7 @@ type synthFacts struct {
 }
 
 func synthName(sp synthfont.Spec) string {
-	return fmt.Sprintf("synth:%s/%s/n%d/d%d/s%d/%d", sp.Kind, sp.Feature, sp.N, sp.Depth, sp.Scripts, sp.Seed)
+	return fmt.Sprintf("synth:%s/%s/n%d/d%d/s%d/m%d/%d", sp.Kind, sp.Feature, sp.N, sp.Depth, sp.Scripts, sp.Mix, sp.Seed)
 }
 
 // loadSynth builds the font of the Spec and loads it on both sides.
@@ -190,6 +190,9 @@ func genSynthCase(t *rapid.T) (*fontEntry, *Case) {
 func synthLabels(fe *fontEntry, c *Case, dir int) []string {
 	sp := fe.synth
 	out := []string{"synth_font", "synth_kind_" + sp.Kind}
+	if sp.Mix == 1 {
+		out = append(out, "synth_cursive_mix")
+	}
 	if d := sp.Nesting(); d > 0 {
 		out = append(out, fmt.Sprintf("synth_nesting_depth_%02d", d))
 		if d > 6 {
